@@ -39,6 +39,9 @@ ASSUMPTIONS = ["texts contain no ESC (fmtstr(str) would parse them; C17) and no 
                "operands of + / join / splice are FmtStr or str (other types raise TypeError/NotImplemented: outside)",
                "splice/append positions are non-negative ints with start <= end (the domain of C09; for end < start the code "
                "slices runs with negative offsets, which the value-level splice model does not cover)",
+               "an observation interrupted by an exception (KeyboardInterrupt, an error in a signal handler) writes no memo field "
+               "of the FmtStr (model: Op.obsInterrupted; only the color_str of the runs already rendered is memoised) - partial "
+               "memo writes are exactly what the `obsint` steps (deterministic fault injection at the k-th per-run call) expose",
                "the garbage objects an operation allocates and drops (temporary lists, intermediate FmtStr of *, fmtstr's "
                "from_str object) are modelled but cannot be observed on the real side; only pool values are compared"]
 LEVEL_NOTE = ("trusted: Lean kernel + propext/Classical.choice/Quot.sound, the hand-written heap model (a transcription of the "
@@ -183,6 +186,78 @@ def deleg_data(s, name, args):
     return "N"
 
 
+class _Interrupt(BaseException):
+    """private exception of the fault injector (a BaseException, like KeyboardInterrupt)"""
+
+
+PER_RUN = {"str": "__str__", "len": "__len__", "s": "s", "width": "width"}
+
+
+def interrupted(fn, which, k):
+    """run fn() while the k-th call of the per-run method the observation uses (Chunk.__str__ / __len__ / .s / .width)
+    raises _Interrupt instead of running. -> (fired, result of fn when it was not interrupted)"""
+    name = PER_RUN[which]
+    orig = Chunk.__dict__[name]
+    count = [0]
+
+    def hit():
+        count[0] += 1
+        if count[0] == k:
+            raise _Interrupt()
+
+    if isinstance(orig, property):
+        patched = property(lambda self: (hit(), orig.fget(self))[1])
+    else:
+        def patched(self):
+            hit()
+            return orig(self)
+    setattr(Chunk, name, patched)
+    try:
+        return False, fn()
+    except _Interrupt:
+        return True, None
+    finally:
+        setattr(Chunk, name, orig)
+
+
+def will_fire(f, which, k):
+    """does the k-th per-run call happen? (memo unset, enough runs, no earlier ValueError of Chunk.width)"""
+    memo = {"str": f._unicode, "len": f._len, "s": f._s, "width": f._width}[which]
+    if memo is not None or not 1 <= k <= len(f.chunks):
+        return False
+    if which == "width":
+        return not any(len(c.s) > 0 and wcswidth(c.s) < 0 for c in f.chunks[:k - 1])
+    return True
+
+
+def open_gen(f, cols):
+    """a live width_aware_splitlines generator plus what an EAGER computation on an equal, unshared value gives"""
+    fresh = FmtStr(*(Chunk(c.s, dict(c.atts)) for c in f.chunks))
+    try:
+        expected = [key_of(l) for l in fresh.width_aware_splitlines(cols)]
+    except Exception as e:  # noqa: BLE001
+        expected = wire.exc_kind(e)
+    return dict(it=f.width_aware_splitlines(cols), expected=expected, i=0, errors=[], cols=cols)
+
+
+def next_gen(g):
+    """advance one live generator; every produced line is judged against the eager computation"""
+    exp = g["expected"]
+    try:
+        line = next(g["it"])
+    except StopIteration:
+        if isinstance(exp, list) and g["i"] != len(exp):
+            g["errors"].append("lazily consumed width_aware_splitlines(%d) stopped after %d lines, eager computation gives %d"
+                               % (g["cols"], g["i"], len(exp)))
+        return None
+    k = key_of(line)
+    if not isinstance(exp, list) or g["i"] >= len(exp) or exp[g["i"]] != k:
+        g["errors"].append("lazily consumed width_aware_splitlines(%d): line %d is %r, eager computation on an equal value gives %r"
+                           % (g["cols"], g["i"], k, exp[g["i"]] if isinstance(exp, list) and g["i"] < len(exp) else exp))
+    g["i"] += 1
+    return line
+
+
 def exec_step(d, pool, gens=None):
     """-> (model tokens, thunk running the real operation and returning (kind, value))
     kind: 'refs' (list of FmtStr), 'text', 'int', 'bool', 'opaque', 'none'.  `gens`: open
@@ -210,19 +285,28 @@ def exec_step(d, pool, gens=None):
         return ["eq", str(a), enc_arg(d["other"])], (lambda: ("bool", f == arg(d["other"])))
     if op == "hash":
         return ["hash", str(a)], (lambda: ("opaque", hash(f)))
+    if op == "obsint":                     # an observation interrupted at the k-th per-run call
+        which, k = d["which"], d["k"]
+        fn = {"str": lambda: ("text", str(f)), "len": lambda: ("int", len(f)), "s": lambda: ("text", f.s),
+              "width": lambda: ("int", f.width)}[which]
+
+        def run():
+            fired, r = interrupted(fn, which, k)
+            return ("opaque", None) if fired else r
+        return (["obsint", which, str(a), str(k)] if will_fire(f, which, k) else [which, str(a)]), run
     if op == "wsplit_open":                # oracle-only: the generator stays open across later steps
         def run():
-            gens.append(f.width_aware_splitlines(d["cols"]))
+            gens.append(open_gen(f, d["cols"]))
+            if "b" in d:                   # a second live generator over a value sharing run objects with the first
+                gens.append(open_gen(pool[d["b"]], d["cols2"]))
             return ("opaque", None)
         return ["oracle-only"], run
     if op == "wsplit_next":
         def run():
             if not gens:
                 return ("opaque", None)
-            try:
-                return ("refs", [next(gens[d["g"] % len(gens)])])
-            except StopIteration:
-                return ("opaque", None)
+            line = next_gen(gens[d["g"] % len(gens)])
+            return ("refs", [line]) if line is not None else ("opaque", None)
         return ["oracle-only"], run
     if op == "join":
         return (["join", str(a)] + [enc_arg(x) for x in d["items"]]), one(lambda: f.join([arg(x) for x in d["items"]]))
@@ -379,6 +463,10 @@ def run_program(case, collect=None):
         except Exception as e:  # noqa: BLE001
             res = wire.exc_kind(e)
             kind, val = "raised", None
+        for g in gens:
+            for w in g["errors"]:
+                findings.append(("step %d: %s" % (i, w), d))
+            g["errors"] = []
         # observation results must equal the freshly computed view
         if obs_key is not None and kind in ("text", "int"):
             v = view_of_key(obs_key)
@@ -507,6 +595,8 @@ def pick_step(r, pool, muts):
                                    "wsliceint", "wsplit", "wsplit", "deleg", "deleg", "setitem", "attsmut", "lit", "fmtstr",
                                    "colorstr"])
     if kind == "obs":
+        if r.random() < 0.25 and nch:
+            return dict(op="obsint", which=r.choice(OBS), a=a, k=r.randint(1, nch))
         return dict(op=r.choice(OBS), a=a)
     if kind == "lit":
         return dict(op="lit", chunks=rchunks(r))
@@ -630,7 +720,13 @@ def pick_extra(r, pool):
         return dict(op="splice", a=a, new=["s", rtext(r, 0, 2, rare=0.0)] if r.random() < 0.6 else ["p", r.randrange(n)],
                     start=start, end=r.randint(0, start - 1))
     if k == "wsplit_open":
-        return dict(op="wsplit_open", a=a, cols=r.choice([2, 2, 3, 4]))
+        d = dict(op="wsplit_open", a=a, cols=r.choice([2, 2, 3, 4]))
+        if r.random() < 0.7 and pool[a].chunks:
+            first = pool[a].chunks[0]
+            sharing = [j for j in range(n) if pool[j].chunks and pool[j].chunks[0] is first]
+            d["b"] = r.choice(sharing)
+            d["cols2"] = r.choice([2, 3, 4, 5])
+        return d
     return dict(op="wsplit_next", g=r.randint(0, 3))
 
 
@@ -703,6 +799,29 @@ def gen_scenarios(thorough):
                 steps += [dict(op=o, a=n), dict(op=o, a=0)]
             steps += FOLLOW[(fi + 5) % len(FOLLOW)](0)
             out.append(dict(kind="scenario", name=name, before=list(before), follow=fi, steps=steps))
+    # every observation interrupted at every run position, before/after a successful one, then all observations
+    for which, a in itertools.product(OBS, (0, 1)):
+        for k in (1, 2):
+            for pre in ([], [dict(op="str", a=a)], [dict(op="add", a=a, b=a)]):
+                steps = [dict(d) for d in BASE] + pre + [dict(op="obsint", which=which, a=a, k=k)]
+                steps += [dict(op=o, a=a) for o in OBS] + [dict(op="getslice", a=a, x=0, y=1)]
+                out.append(dict(kind="scenario", name="interrupted-" + which, steps=steps))
+    return out
+
+
+def gen_lazy_scenarios():
+    """oracle-only: two live width_aware_splitlines generators over values sharing run objects (the same f, f + tail,
+    f * 2), advanced alternately; every produced line is compared with an eager computation on an equal value"""
+    out = []
+    base = [dict(op="lit", chunks=[("abcdefg", {"fg": 31}), ("hij" + WIDE + "k", {"bold": True})]),
+            dict(op="addstr", a=0, t="xyz"), dict(op="mul", a=0, n=2), dict(op="lit", chunks=[("abcdefghijkl", {})]),
+            dict(op="add", a=3, b=3)]
+    for (a, b), (c1, c2) in itertools.product([(0, 0), (0, 1), (0, 2), (1, 2), (3, 3), (3, 4)], [(3, 4), (2, 5), (3, 3)]):
+        for order in ("alternate", "second-first"):
+            steps = [dict(d) for d in base] + [dict(op="wsplit_open", a=a, cols=c1, b=b, cols2=c2)]
+            seq = [0, 1] * 8 if order == "alternate" else [1, 0, 0, 1, 1, 0] * 3
+            steps += [dict(op="wsplit_next", g=g) for g in seq]
+            out.append(dict(kind="oracle-only", name="two-generators", steps=steps))
     return out
 
 
@@ -743,7 +862,7 @@ def mk_cases(ctx, nprog=None):
     for c in cases:
         c["line"] = make_line(c)
     # calls the model does not cover: judged by the oracle alone
-    oracle_cases = [gen_random(r, r.randint(6, maxsteps), muts, oracle_only=True) for _ in range(n // 5)]
+    oracle_cases = gen_lazy_scenarios() + [gen_random(r, r.randint(6, maxsteps), muts, oracle_only=True) for _ in range(n // 5)]
     return cases, oracle_cases, muts_all
 
 
